@@ -1090,15 +1090,18 @@ func checkWalkRoles(c *kit.Ctx, m *storeModel, ew *pointWriter, wf *kit.Func, si
 			o.Violation("the recursive call of %s passes `%s` as the searched id (must be forwarded unchanged)", wf.Name, wf.Str(call.Args[targetIdx]))
 			return
 		}
-		rs, _ := wf.Enclosing(call, func(n ast.Node) bool { _, ok := n.(*ast.RangeStmt); return ok }).(*ast.RangeStmt)
-		if rs == nil || rs.Value == nil {
-			o.Undecided("the recursive call of %s is not inside a range loop with a value variable", wf.Name)
+		rs := wf.EnclosingLoop(call)
+		if rs == nil {
+			o.Undecided("the recursive call of %s is not inside a loop over a slice", wf.Name)
 			return
 		}
 		nextArg := call.Args[startIdx]
-		rv := kit.ObjOf(info, rs.Value)
-		okNext := kit.ObjOf(info, nextArg) == rv
-		if sel, ok := ast.Unparen(nextArg).(*ast.SelectorExpr); ok && kit.ObjOf(info, sel.X) == rv {
+		rv := kit.LoopElemVar(info, rs)
+		isEl := func(x ast.Expr) bool {
+			return (rv != nil && kit.ObjOf(info, x) == rv) || kit.LoopElem(info, rs, x)
+		}
+		okNext := isEl(nextArg)
+		if sel, ok := ast.Unparen(nextArg).(*ast.SelectorExpr); ok && isEl(sel.X) {
 			want := map[string]string{"down": "Up", "up": "Down"}[dir]
 			okNext = sel.Sel.Name == want
 		}
